@@ -14,6 +14,7 @@ typedef uint32_t hb_tag_t;
 typedef struct { hb_tag_t tag; float value; } hb_variation_t;
 
 extern void hb_font_set_variations(hb_font_t *font, const hb_variation_t *variations, unsigned int variations_length);
+extern unsigned int hb_ot_layout_table_get_lookup_count(hb_face_t *face, hb_tag_t table_tag);
 extern unsigned int hb_ot_layout_table_get_feature_tags(hb_face_t *face, hb_tag_t table_tag, unsigned int start_offset, unsigned int *feature_count, hb_tag_t *feature_tags);
 */
 import "C"
@@ -56,4 +57,10 @@ func (f *Face) FeatureTags(table uint32) []uint32 {
 		}
 		start += int(n)
 	}
+}
+
+// LookupCount returns the number of lookups of the GSUB ('GSUB') or GPOS table as the reference
+// sees it (0 when the table is missing or rejected by its sanitizer).
+func (f *Face) LookupCount(table uint32) int {
+	return int(C.hb_ot_layout_table_get_lookup_count((*C.hb_face_t)(unsafe.Pointer(f.face)), C.hb_tag_t(table)))
 }
